@@ -52,10 +52,13 @@ fn eng() -> &'static Eng {
         std::fs::create_dir_all(&dir).unwrap();
         let d = dir.display().to_string();
         let tpl = std::fs::read_to_string("/repo/config/test.toml").unwrap();
+        // VHARN_STORE_FLUSH=1: a 4-event memtable, so the run crosses many flushes and the reads
+        // also see passive buffers and segments; default: nothing is flushed.
+        let small = std::env::var("VHARN_STORE_FLUSH").map(|v| v == "1").unwrap_or(false);
         let cfg = tpl
             .replace("../data/", &format!("{}/", d))
-            .replace("fill_factor = 3", "fill_factor = 100")
-            .replace("event_per_zone = 1", "event_per_zone = 1000")
+            .replace("fill_factor = 3", if small { "fill_factor = 2" } else { "fill_factor = 100" })
+            .replace("event_per_zone = 1", if small { "event_per_zone = 2" } else { "event_per_zone = 1000" })
             .replace("shard_count = 3", "shard_count = 2")
             .replace("stdout_level = \"debug\"", "stdout_level = \"error\"");
         let cfgp = dir.join("cfg.toml");
